@@ -4,11 +4,13 @@
    open findings *)
 From Coq Require Import List Bool Arith NArith Lia.
 From TxVerif Require Import Lib.Bytes Lib.NList Spec.C07 Spec.C08 Model.State Model.StateNotify
-  Proofs.NListProofs Proofs.C07Proofs Proofs.StateShape Proofs.C08Proofs Proofs.C08Refine Proofs.C08Waits.
+  Proofs.NListProofs Proofs.C07Proofs Proofs.StateShape Proofs.C08Proofs Proofs.C08Refine Proofs.C08Waits Proofs.C08Tables Proofs.C08Full.
 Import ListNotations.
 Open Scope N_scope.
 
 Definition is_ok (r : wres) : bool := match r with WFail _ _ _ => false | _ => true end.
+(* the operations of the close machinery proper; build_circuit() and its answers are composed from them below *)
+Definition oldop (o : op) : bool := match o with OBuild _ _ | OExtended _ | OBuildErr => false | _ => true end.
 Definition gone_c (xs : xstate) (ob : N) : Prop := ~ In ob (map snd (circuits (base xs))).
 Definition gone_s (xs : xstate) (ob : N) : Prop := ~ In ob (map snd (streams (base xs))).
 
@@ -51,12 +53,12 @@ Proof.
 Qed.
 
 (* an object that has left the dict never comes back: new entries get a fresh object number *)
-Lemma gone_c_stable ls xs o ls' xs' es ob : Rel ls xs -> lstep ls o = Some ls' -> x_op xs o = Some (xs', es) ->
+Lemma gone_c_stable ls xs o ls' xs' es ob : oldop o = true -> Rel ls xs -> lstep ls o = Some ls' -> x_op xs o = Some (xs', es) ->
   ob < l_nc ls -> gone_c xs ob -> gone_c xs' ob.
 Proof.
-  intros R L X Hlt G. destruct (rel_op ls xs o ls' R L) as [xs2 [es2 [X2 [R' _]]]]. rewrite X in X2. injection X2 as <- <-.
+  intros Ho R L X Hlt G. destruct (rel_pres ls xs o ls' xs' es R L X) as [R' _].
   unfold gone_c in *. rewrite (r_cdict _ _ R'). rewrite (r_cdict _ _ R) in G.
-  destruct o as [e|l|l|o1 l|o1 l|o1 l|o1 l|o1 wt|o1 wt|o1 wt|o1 wt|]; cbn [lstep] in L.
+  destruct o as [e|l|l|o1 l|o1 l|o1 l|o1 l|o1 wt|o1 wt|o1 wt|o1 wt| |rs wt|id|]; try discriminate Ho; cbn [lstep] in L; unfold lstep_ev in L.
   - destruct (negb (ev_legal (l_tv ls) e)); [discriminate|]. destruct e as [id st path kw|id st cid host port kw].
     + unfold locate in L. destruct (kfind fst id (l_cdict ls)) as [p|] eqn:F; injection L as <-; cbn [l_cdict].
       * destruct (c_terminal st); [|exact G]. intros H. apply G. eapply kdel_map_In; eauto.
@@ -72,61 +74,12 @@ Proof.
   - destruct ((o1 <? l_ns ls) && _); [|discriminate]. injection L as <-. exact G.
   - destruct ((o1 <? l_nc ls) && _); [|discriminate]. injection L as <-. exact G.
   - destruct ((o1 <? l_nc ls) && _); [|discriminate]. injection L as <-. exact G.
-  - destruct ((o1 <? l_nc ls) && _); [|discriminate]. injection L as <-. exact G.
-  - destruct ((o1 <? l_ns ls) && _); [|discriminate]. injection L as <-. exact G.
-  - injection L as <-. exact G.
+  - destruct (_ && _ && _); [|discriminate]. injection L as <-. exact G.
+  - destruct (_ && _ && _); [|discriminate]. injection L as <-. exact G.
+  - destruct (l_nb ls =? 0); [|discriminate]. injection L as <-. exact G.
 Qed.
 
 (* ---------------------------------------------------------------- how the close containers evolve *)
-Lemma tfind_tset {V} (t : list (N * V)) k v k' : tfind (tset t k v) k' = if k =? k' then Some v else tfind t k'.
-Proof. unfold tfind, tset. rewrite kfind_kset. cbn [fst]. destruct (k =? k'); reflexivity. Qed.
-Lemma tfind_tdel_other {V} (t : list (N * V)) k k' : k <> k' -> tfind (tdel t k) k' = tfind t k'.
-Proof. intros H. unfold tfind, tdel. rewrite kfind_kdel_other; auto. Qed.
-Lemma tget_tdel_other {V} (d : V) (t : list (N * V)) k k' : k <> k' -> tget d (tdel t k) k' = tget d t k'.
-Proof. intros H. unfold tget, tdel. rewrite kfind_kdel_other; auto. Qed.
-Lemma tget_of_tfind {V} (d : V) (t : list (N * V)) k v : tfind t k = Some v -> tget d t k = v.
-Proof. unfold tfind, tget. destruct (kfind fst k t); [now intros [= <-] | discriminate]. Qed.
-
-Definition term_circ_on (xs : xstate) (o : op) (ob : N) : Prop :=
-  exists id st path kw, o = OEv (ECirc id st path kw) /\ c_terminal st = true /\ ob = xc_obj xs id.
-Definition term_stream_on (xs : xstate) (o : op) (ob : N) : Prop :=
-  exists id st cid host port kw, o = OEv (EStream id st cid host port kw) /\ s_terminal st = true /\ ob = xs_obj xs id.
-
-Lemma x_circ_tables s id st path kw s' es : x_circ s id st path kw = Some (s', es) ->
-  sclosing s' = sclosing s /\ cmds s' = cmds s /\
-  cclosing s' = (if c_terminal st then tdel (cclosing s) (xc_obj s id) else cclosing s).
-Proof.
-  unfold x_circ, xc_obj. destruct (step (base s) (ECirc id st path kw)) as [post|]; [|discriminate].
-  set (o := match kfind fst id (circuits (base s)) with Some p => snd p | None => N.of_nat (length (cheap (base s))) end).
-  assert (E : exists first oldpath, match kfind fst id (circuits (base s)) with
-              | Some p => (false, snd p, match get_c (snd p) (base s) with Some c => c_path c | None => [] end)
-              | None => (true, N.of_nat (length (cheap (base s))), [])
-              end = (first, o, oldpath)).
-  { unfold o. destruct (kfind fst id (circuits (base s))); eexists; eexists; reflexivity. }
-  destruct E as [first [oldpath E]]. rewrite E. clear E.
-  destruct st; cbv iota beta; cbn [c_terminal].
-  - intros [= <- <-]. repeat split.
-  - destruct (fire (wbs s) o (WOkC o)). intros [= <- <-]. repeat split.
-  - intros [= <- <-]. repeat split.
-  - intros [= <- <-]. repeat split.
-  - destruct (fire (wcs s) o (WOkC o)). destruct (reason_of kw). destruct (fire (wbs s) o _). intros [= <- <-]. repeat split.
-  - destruct (fire (wcs s) o (WOkC o)). destruct (reason_of kw). destruct (fire (wbs s) o _). intros [= <- <-]. repeat split.
-Qed.
-
-Lemma x_stream_tables s id st cid host port kw s' es : x_stream s id st cid host port kw = Some (s', es) ->
-  cclosing s' = cclosing s /\ cmds s' = cmds s /\
-  sclosing s' = (if s_terminal st then tdel (sclosing s) (xs_obj s id) else sclosing s).
-Proof.
-  unfold x_stream, xs_obj. destruct (step (base s) (EStream id st cid host port kw)) as [post|]; [|discriminate].
-  set (o := match kfind fst id (streams (base s)) with Some p => snd p | None => N.of_nat (length (sheap (base s))) end).
-  assert (E : exists first pc, match kfind fst id (streams (base s)) with
-              | Some p => (false, snd p, match get_s (snd p) (base s) with Some x => s_circ x | None => None end)
-              | None => (true, N.of_nat (length (sheap (base s))), None)
-              end = (first, o, pc)).
-  { unfold o. destruct (kfind fst id (streams (base s))); eexists; eexists; reflexivity. }
-  destruct E as [first [pc E]]. rewrite E. clear E. intros [= <- <-]. repeat split.
-Qed.
-
 (* a wait id stays in the callback list of its object's _closing_deferred unless that object ends *)
 Lemma items_kept (t t' : list (N * list cbitem)) ob (w : N) :
   In w (items_holders (tget [] t ob)) ->
@@ -139,7 +92,7 @@ Proof.
   - exfalso. rewrite (tfind_tget [] t ob), F in H. destruct H.
 Qed.
 
-Lemma close_tables_step xs o xs' es : x_op xs o = Some (xs', es) ->
+Lemma close_tables_step xs o xs' es : oldop o = true -> x_op xs o = Some (xs', es) ->
   (forall ob items, tfind (cclosing xs) ob = Some items ->
      (exists extra, tfind (cclosing xs') ob = Some (items ++ extra)) \/ term_circ_on xs o ob) /\
   (forall ob items, tfind (sclosing xs) ob = Some items ->
@@ -152,7 +105,7 @@ Lemma close_tables_step xs o xs' es : x_op xs o = Some (xs', es) ->
 Proof.
   assert (Same : forall (t : list (N * list cbitem)) ob items, tfind t ob = Some items -> exists extra, tfind t ob = Some (items ++ extra)).
   { intros t ob items H. exists []. now rewrite app_nil_r. }
-  destruct o as [e|l|l|o1 l|o1 l|o1 l|o1 l|o1 wt|o1 wt|o1 wt|o1 wt|]; cbn [x_op].
+  intros Ho. destruct o as [e|l|l|o1 l|o1 l|o1 l|o1 l|o1 wt|o1 wt|o1 wt|o1 wt| |rs wt|id|]; try discriminate Ho; cbn [x_op].
   - destruct e as [id st path kw|id st cid host port kw]; intros X.
     + destruct (x_circ_tables _ _ _ _ _ _ _ X) as [A [B C]]. rewrite A, B, C.
       split; [|split; [|split; [|split]]]; [| intros ob items H; left; now apply Same | auto | auto |].
@@ -221,7 +174,7 @@ Proof.
          | intros c0 H; left; apply in_or_app; now left
          | intros ob w ok H; apply in_app_or in H as [H|[H|[]]]; [now left | discriminate H] ] ]).
   - (* acknowledgement *)
-    destruct (cmds xs) as [|[ob wt ok|ob wt ok] q] eqn:Ec.
+    destruct (cmds xs) as [|[ob wt ok|ob wt ok|wt] q] eqn:Ec; [| | |discriminate].
     + intros [= <- <-]. rewrite Ec. repeat split; auto.
     + assert (Pop : forall c0, In c0 (CmdC ob wt ok :: q) -> In c0 q \/ (OAck = OAck /\ exists q0, CmdC ob wt ok :: q = c0 :: q0)).
       { intros c0 [<-|H]; [right; split; [reflexivity | eexists; reflexivity] | now left]. }
@@ -249,14 +202,19 @@ Lemma x_op_det xs o a b : x_op xs o = Some a -> x_op xs o = Some b -> a = b.
 Proof. congruence. Qed.
 
 Lemma ev_legal_of_lstep ls e ls' : lstep ls (OEv e) = Some ls' -> ev_legal (l_tv ls) e = true.
-Proof. cbn [lstep]. destruct (ev_legal (l_tv ls) e); [reflexivity | discriminate]. Qed.
+Proof. cbn [lstep]; unfold lstep_ev. destruct (ev_legal (l_tv ls) e); [reflexivity | discriminate]. Qed.
+
+Lemma nc_mono_ev ls e ls' : lstep_ev ls e = Some ls' -> l_nc ls <= l_nc ls' /\ l_ns ls <= l_ns ls'.
+Proof.
+  unfold lstep_ev. destruct (negb (ev_legal (l_tv ls) e)); [discriminate|]. destruct e as [id st path kw|id st cid host port kw].
+  - destruct (locate id (l_cdict ls) (l_nc ls)) as [f n]. intros [= <-]. cbn. destruct f; lia.
+  - destruct (locate id (l_sdict ls) (l_ns ls)) as [f n]. intros [= <-]. cbn. destruct f; lia.
+Qed.
 
 Lemma nc_mono ls o ls' : lstep ls o = Some ls' -> l_nc ls <= l_nc ls' /\ l_ns ls <= l_ns ls'.
 Proof.
-  destruct o as [e|l|l|o1 l|o1 l|o1 l|o1 l|o1 wt|o1 wt|o1 wt|o1 wt|]; cbn [lstep].
-  - destruct (negb (ev_legal (l_tv ls) e)); [discriminate|]. destruct e as [id st path kw|id st cid host port kw].
-    + destruct (locate id (l_cdict ls) (l_nc ls)) as [f n]. intros [= <-]. cbn. destruct f; lia.
-    + destruct (locate id (l_sdict ls) (l_ns ls)) as [f n]. intros [= <-]. cbn. destruct f; lia.
+  destruct o as [e|l|l|o1 l|o1 l|o1 l|o1 l|o1 wt|o1 wt|o1 wt|o1 wt| |rs wt|id|]; cbn [lstep].
+  - apply nc_mono_ev.
   - intros [= <-]. cbn. lia.
   - intros [= <-]. cbn. lia.
   - destruct (o1 <? l_nc ls); [|discriminate]. intros [= <-]. cbn. lia.
@@ -265,14 +223,18 @@ Proof.
   - destruct ((o1 <? l_ns ls) && _); [|discriminate]. intros [= <-]. cbn. lia.
   - destruct ((o1 <? l_nc ls) && _); [|discriminate]. intros [= <-]. cbn. lia.
   - destruct ((o1 <? l_nc ls) && _); [|discriminate]. intros [= <-]. cbn. lia.
-  - destruct ((o1 <? l_nc ls) && _); [|discriminate]. intros [= <-]. cbn. lia.
-  - destruct ((o1 <? l_ns ls) && _); [|discriminate]. intros [= <-]. cbn. lia.
-  - intros [= <-]. lia.
+  - destruct (_ && _ && _); [|discriminate]. intros [= <-]. cbn. lia.
+  - destruct (_ && _ && _); [|discriminate]. intros [= <-]. cbn. lia.
+  - destruct (l_nb ls =? 0); [|discriminate]. intros [= <-]. cbn. lia.
+  - destruct (_ && _); [|discriminate]. intros [= <-]. cbn. lia.
+  - destruct (_ && _); [|discriminate]. destruct (lstep_ev ls (ext_event id)) as [l1|] eqn:E; [|discriminate].
+    intros [= <-]. cbn [with_q l_nc l_ns]. now apply (nc_mono_ev ls (ext_event id)).
+  - destruct (0 <? l_nb ls); [|discriminate]. intros [= <-]. cbn. lia.
 Qed.
 
-Lemma base_same xs o xs' es : x_op xs o = Some (xs', es) -> (forall e, o <> OEv e) -> base xs' = base xs.
+Lemma base_same xs o xs' es : oldop o = true -> x_op xs o = Some (xs', es) -> (forall e, o <> OEv e) -> base xs' = base xs.
 Proof.
-  intros X Hne. destruct o as [e|l|l|o1 l|o1 l|o1 l|o1 l|o1 wt|o1 wt|o1 wt|o1 wt|]; [exfalso; now apply (Hne e)| | | | | | | | | | |];
+  intros Ho X Hne. destruct o as [e|l|l|o1 l|o1 l|o1 l|o1 l|o1 wt|o1 wt|o1 wt|o1 wt| |rs wt|id|]; try discriminate Ho; [exfalso; now apply (Hne e)| | | | | | | | | | |];
     cbn [x_op] in X.
   - now injection X as <- <-.
   - now injection X as <- <-.
@@ -288,17 +250,17 @@ Proof.
     destruct (c_state c) as [[]|]; try (now injection X as <- <-); destruct (tfind (cclosing xs) o1); now injection X as <- <-.
   - destruct (get_s o1 (base xs)) as [x|]; [|discriminate].
     destruct (s_state x) as [[]|]; try (now injection X as <- <-); destruct (tfind (sclosing xs) o1); now injection X as <- <-.
-  - destruct (cmds xs) as [|[ob wt ok|ob wt ok] q]; [now injection X as <- <-| |now injection X as <- <-].
+  - destruct (cmds xs) as [|[ob wt ok|ob wt ok|wt] q]; [now injection X as <- <-| |now injection X as <- <-|discriminate].
     destruct ok; [destruct (tfind (cclosing xs) ob)|]; now injection X as <- <-.
 Qed.
 
 (* a terminal CIRC event: the object's cell records the status, and the object has left the dict *)
-Lemma listed_live_step ls xs o ls' xs' es : Rel ls xs -> listed_live (base xs) ->
+Lemma listed_live_step ls xs o ls' xs' es : oldop o = true -> Rel ls xs -> listed_live (base xs) ->
   lstep ls o = Some ls' -> x_op xs o = Some (xs', es) -> listed_live (base xs').
 Proof.
-  intros R LL L X. pose proof (r_wf _ _ R) as W.
-  destruct o as [e|l|l|o1 l|o1 l|o1 l|o1 l|o1 wt|o1 wt|o1 wt|o1 wt|];
-    try (rewrite (base_same xs _ xs' es X); [exact LL | intros e; discriminate]).
+  intros Ho R LL L X. pose proof (r_wf _ _ R) as W.
+  destruct o as [e|l|l|o1 l|o1 l|o1 l|o1 l|o1 wt|o1 wt|o1 wt|o1 wt| |rs wt|id|]; try discriminate Ho;
+    try (rewrite (base_same xs _ xs' es Ho X); [exact LL | intros e; discriminate]).
   pose proof (ev_legal_of_lstep _ _ _ L) as Lg. rewrite <- (r_tv _ _ R) in Lg.
   destruct e as [id st path kw|id st cid host port kw]; cbn [x_op] in X.
   - destruct (x_circ_told _ _ _ _ _ _ _ X) as [Eb _].
@@ -311,7 +273,7 @@ Proof.
       (* terminal: the id is gone, so nothing lists the object *)
       exfalso. destruct (circuit_terminal_removes (base xs) id st path kw W (r_cp _ _ R) Lg T) as [s2 [E2 Hn]].
       cbn [step] in E2, Eb. rewrite Eb in E2. injection E2 as <-.
-      destruct (wf_clive _ (r_wf _ _ (ltac:(destruct (rel_op ls xs _ ls' R L) as [x2 [e2 [X2 [R2 _]]]]; cbn [x_op] in X2; rewrite X in X2; injection X2 as <- <-; exact R2))) p Hp) as [c2 [G2 I2]].
+      destruct (wf_clive _ (r_wf _ _ (proj1 (rel_pres ls xs _ ls' xs' es R L X))) p Hp) as [c2 [G2 I2]].
       rewrite E, Gc' in G2. injection G2 as <-. apply Hn. rewrite <- Ic', I2. now apply in_map.
     + rewrite (Sh6 _ E) in G. apply (LL p c); [|exact G].
       rewrite Sh3 in Hp. cbv zeta in Hp.
@@ -342,12 +304,12 @@ Proof.
     pose proof (get_s_bound _ _ _ W G). lia.
 Qed.
 
-Lemma listed_slive_step ls xs o ls' xs' es : Rel ls xs -> listed_slive (base xs) ->
+Lemma listed_slive_step ls xs o ls' xs' es : oldop o = true -> Rel ls xs -> listed_slive (base xs) ->
   lstep ls o = Some ls' -> x_op xs o = Some (xs', es) -> listed_slive (base xs').
 Proof.
-  intros R LL L X. pose proof (r_wf _ _ R) as W.
-  destruct o as [e|l|l|o1 l|o1 l|o1 l|o1 l|o1 wt|o1 wt|o1 wt|o1 wt|];
-    try (rewrite (base_same xs _ xs' es X); [exact LL | intros e; discriminate]).
+  intros Ho R LL L X. pose proof (r_wf _ _ R) as W.
+  destruct o as [e|l|l|o1 l|o1 l|o1 l|o1 l|o1 wt|o1 wt|o1 wt|o1 wt| |rs wt|id|]; try discriminate Ho;
+    try (rewrite (base_same xs _ xs' es Ho X); [exact LL | intros e; discriminate]).
   pose proof (ev_legal_of_lstep _ _ _ L) as Lg. rewrite <- (r_tv _ _ R) in Lg.
   destruct e as [id st path kw|id st cid host port kw]; cbn [x_op] in X.
   - destruct (x_circ_told _ _ _ _ _ _ _ X) as [Eb _].
@@ -421,19 +383,18 @@ Proof.
   destruct (LL' p c' Hp Gc') as [A B]. rewrite Sc' in A, B. destruct st; try discriminate T; congruence.
 Qed.
 
-Lemma inv3_step ls xs o ls' xs' es : Inv3 ls xs -> lstep ls o = Some ls' -> x_op xs o = Some (xs', es) ->
+Lemma inv3_step_old ls xs o ls' xs' es : oldop o = true -> Inv3 ls xs -> lstep ls o = Some ls' -> x_op xs o = Some (xs', es) ->
   Inv3 ls' xs' /\
   (forall w r ob, In (NDone w r) es -> is_ok r = true -> cwait_c xs o w ob -> gone_c xs' ob) /\
   (forall w r ob, In (NDone w r) es -> is_ok r = true -> cwait_s xs o w ob -> gone_s xs' ob).
 Proof.
-  intros I L X. pose proof (i_rel _ _ I) as R.
-  assert (R' : Rel ls' xs').
-  { destruct (rel_op ls xs o ls' R L) as [x2 [e2 [X2 [R2 _]]]]. rewrite X in X2. now injection X2 as <- <-. }
+  intros Ho I L X. pose proof (i_rel _ _ I) as R.
+  assert (R' : Rel ls' xs') by (exact (proj1 (rel_pres ls xs o ls' xs' es R L X))).
   destruct (lstep_used ls o ls' L) as [Hused Hfresh].
   destruct (hold_step xs o xs' es (l_used ls) X (i_cnt _ _ I) (i_used _ _ I) Hfresh) as [HC HU].
-  pose proof (listed_live_step ls xs o ls' xs' es R (i_live _ _ I) L X) as LL'.
-  pose proof (listed_slive_step ls xs o ls' xs' es R (i_slive _ _ I) L X) as SL'.
-  destruct (close_tables_step xs o xs' es X) as [T1 [T2 [T3 [T4 T5]]]].
+  pose proof (listed_live_step ls xs o ls' xs' es Ho R (i_live _ _ I) L X) as LL'.
+  pose proof (listed_slive_step ls xs o ls' xs' es Ho R (i_slive _ _ I) L X) as SL'.
+  destruct (close_tables_step xs o xs' es Ho X) as [T1 [T2 [T3 [T4 T5]]]].
   destruct (nc_mono ls o ls' L) as [Mc Ms].
   assert (NotHeld : forall w r, In (NDone w r) es -> ~ In w (holders xs')).
   { intros w r. apply (done_not_held xs o xs' es w r (l_used ls) X (i_cnt _ _ I) (i_used _ _ I) Hfresh). }
@@ -451,7 +412,7 @@ Proof.
       * destruct (tfind (cclosing xs) ob) as [items|] eqn:F; [|congruence].
         destruct (T1 ob items F) as [[extra F']|Ht]; [left; rewrite F'; discriminate|].
         right. exact (term_circ_gone ls xs o ls' xs' es ob R LL' L X Ht).
-      * right. exact (gone_c_stable ls xs o ls' xs' es ob R L X (i_cmd_ex _ _ I ob w ok Hold) Hg).
+      * right. exact (gone_c_stable ls xs o ls' xs' es ob Ho R L X (i_cmd_ex _ _ I ob w ok Hold) Hg).
     + intros ob w ok H. destruct (T4 ob w ok H) as [Hold|[_ [_ Hnew]]].
       * pose proof (i_cmd_ex _ _ I ob w ok Hold). lia.
       * pose proof (Bound ob Hnew). lia.
@@ -498,6 +459,72 @@ Proof.
         destruct (x_stream_told _ _ _ _ _ _ _ _ _ X) as [Eb _].
         pose proof (ev_legal_of_lstep _ _ _ L) as Lg. rewrite <- (r_tv _ _ R) in Lg.
         unfold gone_s. eapply stream_terminal_gone; eauto; [exact (r_wf _ _ R) | exact (r_cp _ _ R)].
+Qed.
+
+(* build_circuit() and its answers: a frame step, resp. the event "id EXTENDED" followed by a frame step *)
+Lemma inv3_step ls xs o ls' xs' es : Inv3 ls xs -> lstep ls o = Some ls' -> x_op xs o = Some (xs', es) ->
+  Inv3 ls' xs' /\
+  (forall w r ob, In (NDone w r) es -> is_ok r = true -> cwait_c xs o w ob -> gone_c xs' ob) /\
+  (forall w r ob, In (NDone w r) es -> is_ok r = true -> cwait_s xs o w ob -> gone_s xs' ob).
+Proof.
+  intros I L X. destruct (oldop o) eqn:Ho; [now apply (inv3_step_old ls xs o ls' xs' es)|].
+  pose proof (i_rel _ _ I) as R.
+  destruct (rel_pres ls xs o ls' xs' es R L X) as [R' _].
+  destruct (lstep_used ls o ls' L) as [Hused Hfresh].
+  destruct (hold_step xs o xs' es (l_used ls) X (i_cnt _ _ I) (i_used _ _ I) Hfresh) as [HC HU].
+  assert (HU' : forall w, In w (holders xs') -> In w (l_used ls')) by (intros w H; rewrite Hused; now apply HU).
+  destruct (nc_mono ls o ls' L) as [Mc Ms].
+  destruct o as [e|l|l|o1 l|o1 l|o1 l|o1 l|o1 wt|o1 wt|o1 wt|o1 wt| |rs wt|id|]; try discriminate Ho; cbn [x_op] in X.
+  - (* build_circuit *)
+    injection X as <- <-. split; [|split].
+    + constructor; cbn [base cmds cclosing]; auto.
+      * exact (i_live _ _ I).
+      * exact (i_slive _ _ I).
+      * intros ob w ok H. apply in_app_or in H as [H|[H|[]]]; [|discriminate]. exact (i_cmd _ _ I ob w ok H).
+      * intros ob w ok H. apply in_app_or in H as [H|[H|[]]]; [|discriminate]. pose proof (i_cmd_ex _ _ I ob w ok H). lia.
+      * intros ob H. pose proof (i_cc_ex _ _ I ob H). lia.
+    + intros w r ob Hd. exfalso. cbn [In] in Hd. destruct Hd as [Hd|Hd]; [discriminate|].
+      apply in_map_iff in Hd as [x [Hx _]]. discriminate.
+    + intros w r ob Hd. exfalso. cbn [In] in Hd. destruct Hd as [Hd|Hd]; [discriminate|].
+      apply in_map_iff in Hd as [x [Hx _]]. discriminate.
+  - (* 250 EXTENDED id *)
+    destruct (cmds xs) as [|[ob0 w0 ok0|ob0 w0 ok0|w0] q] eqn:Ec; try discriminate.
+    destruct (x_circ xs id CExtended [] []) as [[xs1 es1]|] eqn:X1; [|discriminate]. injection X as <- <-.
+    cbn [lstep] in L. destruct (_ && _) in L; [|discriminate].
+    destruct (lstep_ev ls (ext_event id)) as [l1|] eqn:L1; [|discriminate]. injection L as <-.
+    destruct (inv3_step_old ls xs (OEv (ext_event id)) l1 xs1 es1 eq_refl I L1 X1) as [I1 [Pc Ps]].
+    destruct (x_circ_tables _ _ _ _ _ _ _ X1) as [T1 [T2 T3]].
+    assert (Wslot : In w0 (slot_ids xs SlCmd)) by (cbn [slot_ids]; rewrite Ec; now left).
+    split; [|split].
+    + constructor; cbn [base cmds cclosing with_q l_nc]; auto.
+      * exact (i_live _ _ I1).
+      * exact (i_slive _ _ I1).
+      * intros ob w ok H. apply (i_cmd _ _ I1 ob w ok). rewrite T2, Ec. now right.
+      * intros ob w ok H. apply (i_cmd_ex _ _ I1 ob w ok). rewrite T2, Ec. now right.
+      * exact (i_cc_ex _ _ I1).
+    + intros w r ob Hd Hok Hw. apply in_app_or in Hd as [Hd|[Hd|[]]].
+      * apply (Pc w r ob Hd Hok). destruct Hw as [Hw|Hw]; [discriminate | right; exact Hw].
+      * injection Hd as <- <-. exfalso. destruct Hw as [Hw|[Hw|[ok Hw]]]; [discriminate| |].
+        -- discriminate (slot_unique xs (i_cnt _ _ I) w0 (SlCC ob) SlCmd Hw Wslot).
+        -- pose proof (slot_nodup xs (i_cnt _ _ I) SlCmd) as Nd. cbn [slot_ids] in Nd. rewrite Ec in Nd, Hw.
+           cbn [map concat cmd_holders app] in Nd. inversion Nd as [|? ? Hn _]; subst. apply Hn.
+           destruct Hw as [Hw|Hw]; [discriminate|]. apply in_concat. exists [w0]. split; [|now left].
+           apply in_map_iff. exists (CmdC ob w0 ok). auto.
+    + intros w r ob Hd Hok Hw. apply in_app_or in Hd as [Hd|[Hd|[]]].
+      * apply (Ps w r ob Hd Hok). destruct Hw as [Hw|Hw]; [discriminate | right; exact Hw].
+      * injection Hd as <- <-. exfalso. destruct Hw as [Hw|Hw]; [discriminate|].
+        discriminate (slot_unique xs (i_cnt _ _ I) w0 (SlSC ob) SlCmd Hw Wslot).
+  - (* 5xx *)
+    destruct (cmds xs) as [|[ob0 w0 ok0|ob0 w0 ok0|w0] q] eqn:Ec; try discriminate. injection X as <- <-.
+    split; [|split].
+    + constructor; cbn [base cmds cclosing]; auto.
+      * exact (i_live _ _ I).
+      * exact (i_slive _ _ I).
+      * intros ob w ok H. apply (i_cmd _ _ I ob w ok). rewrite Ec. now right.
+      * intros ob w ok H. pose proof (i_cmd_ex _ _ I ob w ok). rewrite Ec in H0. specialize (H0 (or_intror H)). lia.
+      * intros ob H. pose proof (i_cc_ex _ _ I ob H). lia.
+    + intros w r ob [Hd|[]] Hok. injection Hd as <- <-. discriminate Hok.
+    + intros w r ob [Hd|[]] Hok. injection Hd as <- <-. discriminate Hok.
 Qed.
 
 (* along a run: whenever a close wait of object ob completes successfully in an operation, ob is no longer
